@@ -36,12 +36,15 @@ type Emb struct {
 }
 
 type Src struct {
-	ID    int
-	Name  string
-	In    Inner
-	Deep  Deep
+	ID   int
+	Name string
+	In   Inner
+	Deep Deep
 	Emb
-	Anon  struct{ P int; Q string }
+	Anon struct {
+		P int
+		Q string
+	}
 	Anon2 struct{ P int }
 	PtrIn *Inner
 	Items []Inner
@@ -54,19 +57,23 @@ type Src struct {
 		Tag string
 		rev int
 	}
+	Box ext.Box
 }
 
-func (s *Src) Title() string          { return s.Name }
-func (s *Src) Owner() *ext.Owner      { return &s.Imp }
-func (s *Src) Fail() (string, error)  { return "", nil }
+func (s *Src) Title() string         { return s.Name }
+func (s *Src) Owner() *ext.Owner     { return &s.Imp }
+func (s *Src) Fail() (string, error) { return "", nil }
 
 type Dst struct {
-	ID    int
-	Name  string
-	In    InnerX
-	Deep  DeepX
+	ID   int
+	Name string
+	In   InnerX
+	Deep DeepX
 	Emb
-	Anon  struct{ P int; Q string }
+	Anon struct {
+		P int
+		Q string
+	}
 	Anon2 struct{ P int64 }
 	PtrIn *InnerX
 	Items []InnerX
@@ -80,8 +87,16 @@ type Dst struct {
 		rev   int
 		owner string
 	}
+	Box   ext.Box2
+	Label Tag
 }
 
-func Up(s string) string            { return s }
+// Tag is a named string (a typecast target).
+type Tag string
+
+// PtrUp takes its argument by pointer.
+func PtrUp(s *string) string { return *s }
+
+func Up(s string) string             { return s }
 func UpErr(s string) (string, error) { return s, nil }
-func Itoa(i int) string             { return "" }
+func Itoa(i int) string              { return "" }
